@@ -1244,3 +1244,6 @@ func addLocalFields(w *wset, prefix string, t types.Type, depth int) {
 		addLocalFields(w, k, st.Field(i).Type(), depth+1)
 	}
 }
+
+// Ctx returns the analysis context f belongs to (for views of other functions).
+func (f *Fn) Ctx() *Ctx { return f.c }
